@@ -350,16 +350,29 @@ def job_series(job):
                 n1, n2 = _safe(lambda: yy.normsq()), _safe(lambda: yy * ~yy)
                 if n1[0] != n2[0] or (n1[0] == 'value' and not O.eq(fr.mv_to_ref(n1[1]), fr.mv_to_ref(n2[1]))):
                     fail({'config': cfg, 'what': 'normsq(x) != x * ~x', 'x': showmv(yy.keys(), yy.values()), 'got': str(n1)[:160], 'expected': str(n2)[:160]})
-            nsq = todict(yf.normsq())
-            if set(O.nz(nsq)) <= {0} and nsq.get(0, 0) > 0:
-                with warnings.catch_warnings():
-                    warnings.simplefilter('ignore')
-                    nr = _safe(lambda: yf.norm())
-                    if nr[0] != 'value' or not close(nr[1] * nr[1], yf.normsq(), 1e-7):
-                        fail({'config': cfg, 'what': 'norm()**2 != normsq()', 'x': showmv(ks, yf.values()), 'got': str(nr)[:200]})
-                    nn = _safe(lambda: yf.normalized().normsq())
-                    if nn[0] != 'value' or not close(nn[1], {0: 1.0}, 1e-7):
-                        fail({'config': cfg, 'what': 'normalized(x) does not have squared norm 1', 'x': showmv(ks, yf.values()), 'got': str(nn)[:200]})
+            # norm / normalized: for every element whose x * ~x is a non-zero scalar - positive or negative (negative-signature blades:
+            # the norm is then imaginary, its square is still normsq and the normalized element still has squared norm +1)
+            cands = [(ks, yf)]
+            negv = [k for k in alg.indices_for_grades[(1,)] if O.gp(fr.blade(k), fr.blade(k), fr.sig).get(0, 0) < 0]
+            if negv:
+                kneg = rng.choice(negv)
+                cands.append(((kneg,), mv_from(alg, (kneg,), [float(rng.choice([3, -2, 5]))])))
+                posv = [k for k in alg.indices_for_grades[(1,)] if O.gp(fr.blade(k), fr.blade(k), fr.sig).get(0, 0) > 0]
+                if posv:
+                    kp = rng.choice(posv)
+                    cands.append(((kp, kneg), mv_from(alg, (kp, kneg), [1.0, 2.0])))          # squared norm 1 - 4 < 0
+            for cks, cy in cands:
+                nsq = todict(cy.normsq())
+                if set(O.nz(nsq)) <= {0} and nsq.get(0, 0) != 0:
+                    out['evaluations'] += 1
+                    with warnings.catch_warnings():
+                        warnings.simplefilter('ignore')
+                        nr = _safe(lambda: cy.norm())
+                        if nr[0] != 'value' or not close(nr[1] * nr[1], cy.normsq(), 1e-7):
+                            fail({'config': cfg, 'what': 'norm()**2 != normsq()', 'x': showmv(cks, cy.values()), 'got': str(nr)[:200], 'normsq': str(nsq)})
+                        nn = _safe(lambda: cy.normalized().normsq())
+                        if nn[0] != 'value' or not close(nn[1], {0: 1.0}, 1e-7):
+                            fail({'config': cfg, 'what': 'normalized(x) does not have squared norm 1', 'x': showmv(cks, cy.values()), 'got': str(nn)[:200]})
             if len(out['samples']) < 3:
                 out['samples'].append({'config': cfg, 'outerexp_of': showmv(ks, x.values()), 'exp_of_blade': alg.bin2canon[K], 'square': sq})
     out['distinct'] = n
